@@ -17,6 +17,7 @@
 #include <smooth/polynomial/quadrature.hpp>
 
 #include <algorithm>
+#include <csignal>
 #include <array>
 #include <deque>
 #include <fstream>
@@ -31,6 +32,33 @@ using namespace vh;
 using PB = smooth::PolynomialBasis;
 
 static Sink g_sink;
+
+// A library call that does not return (crash / no termination) is itself an observation: the operands of
+// the call in flight are kept here, and the signal handler completes the event with "crash": 1 (signal) or
+// 2 (alarm: the call group did not return within 20 s) before the process ends (exit code 3).
+static const std::string * g_pending = nullptr;
+static volatile long g_done          = 0;  // queries of the pending search event that did return
+
+static void on_signal(int sig)
+{
+  if (g_pending != nullptr && g_sink.f != nullptr) {
+    std::string line = *g_pending;
+    line += ",\"res\":[],\"crash\":";
+    line += (sig == SIGALRM) ? "2" : "1";
+    line += ",\"signal\":" + std::to_string(sig) + ",\"done\":" + std::to_string(g_done) + "}\n";
+    std::fwrite(line.data(), 1, line.size(), g_sink.f);
+    std::fflush(g_sink.f);
+  } else if (g_sink.f != nullptr) {
+    std::fputs("{\"op\":\"TRUNCATED\"}\n", g_sink.f);
+    std::fflush(g_sink.f);
+  }
+  _exit(3);
+}
+
+static void install_signal_handlers()
+{
+  for (int sig : {SIGSEGV, SIGBUS, SIGFPE, SIGILL, SIGABRT, SIGALRM}) std::signal(sig, on_signal);
+}
 
 // ---------------------------------------------------------------------------------------- recording
 template<std::size_t R, std::size_t C>
@@ -481,11 +509,20 @@ static long search_one(const std::string & var, long den, const std::vector<long
 static void do_search(const std::string & var, long den, const std::vector<long> & qs, const std::vector<long> & r,
                       int exh, const std::vector<long> & alphabet)
 {
-  std::vector<long> res;
-  for (long q : qs) res.push_back(search_one(var, den, r, q));
   Ev e;
   e.str("op", "search").str("var", var).num("den", den).num("exh", exh).raw("alpha", iseq(alphabet));
-  e.raw("r", iseq(r)).raw("q", iseq(qs)).raw("res", iseq(res));
+  e.raw("r", iseq(r)).raw("q", iseq(qs));
+  g_done    = 0;
+  g_pending = &e.s;
+  alarm(20);
+  std::vector<long> res;
+  for (long q : qs) {
+    res.push_back(search_one(var, den, r, q));
+    g_done = g_done + 1;
+  }
+  alarm(0);
+  g_pending = nullptr;
+  e.raw("res", iseq(res));
   g_sink.emit(e);
 }
 
@@ -598,13 +635,20 @@ static void do_search_wide(const std::vector<double> & r, const std::vector<doub
   std::vector<double> buf(r.size() + 2 * G, -std::numeric_limits<double>::infinity());
   std::copy(r.begin(), r.end(), buf.begin() + G);
   const std::span<const double> v(buf.data() + G, r.size());
+  Ev e;
+  e.str("op", "search").str("var", "dw").num("exh", 0).vec("rq", r).vec("qq", qs);
+  g_done    = 0;
+  g_pending = &e.s;
+  alarm(20);
   std::vector<long> res;
   for (double q : qs) {
     const auto it = smooth::utils::binary_interval_search(v, q);
     res.push_back(std::distance(std::ranges::cbegin(v), it));
+    g_done = g_done + 1;
   }
-  Ev e;
-  e.str("op", "search").str("var", "dw").num("exh", 0).vec("rq", r).vec("qq", qs).raw("res", iseq(res));
+  alarm(0);
+  g_pending = nullptr;
+  e.raw("res", iseq(res));
   g_sink.emit(e);
 }
 
@@ -701,6 +745,7 @@ static void run_prog(const std::string & path)
 int main(int argc, char ** argv)
 {
   install_handlers();
+  install_signal_handlers();
   const std::string out  = arg(argc, argv, "--out", "");
   const std::string part = arg(argc, argv, "--part", "");
   const std::string prog = arg(argc, argv, "--prog", "");
